@@ -114,6 +114,36 @@ AmpBandLaw(inb, outb, band) ==
    /\ \A i \in 1..Len(inb)  : SurelyOutOfBand(inb[i], band) => ~\E j \in 1..Len(outb) : outb[j].f = inb[i].f
    /\ \A j \in 1..Len(outb) : \E i \in 1..Len(inb) : inb[i].f = outb[j].f
 
+\* --- NF model curves ----------------------------------------------------------------------------------------------------
+\* A configured curve (the OpenROADM OSNR polynomial, the polynomial NF of the advanced model) is handed over as a uniform
+\* table t = [x0, step, v]: the harness tabulates the polynomial AS CONFIGURED (coefficients by their declared order: list
+\* position in the legacy form, coef_order key in the YANG form) - the argument at which it is read is computed HERE.
+InterpUniform(t, x) == LET i  == (x - t.x0) \div t.step + 1
+                           xi == t.x0 + (i - 1) * t.step
+                       IN t.v[i] + ((t.v[i + 1] - t.v[i]) * (x - xi)) \div t.step
+InTable(t, x)       == x >= t.x0 /\ x < t.x0 + (Len(t.v) - 1) * t.step
+\* OpenROADM: the noise mask is a function of the input power per channel normalised to a 50 GHz slot:
+\* total input power / number of channels x (50 GHz / slot width); slotRatioDb = 10 log10(50 GHz / slot width)
+OrPin50(pinTot, nchDb, slotRatioDb) == pinTot - nchDb + slotRatioDb
+\* preamp mask: OSNR = min((4 P + 275) / 7, 33) dB;   ILA: OSNR = configured polynomial(P);   NF = P - OSNR + 58
+OrPreampOsnr(p) == MinI((4 * p + 275000000) \div 7, 33000000)
+OrNf(p, osnr)   == p - osnr + 58000000
+\* polynomial (advanced) model: NF = configured polynomial(-(gain deficit below flatMax)), the deficit clamped at 0 and taken
+\* at gainMin when the amplifier is padded
+PolyArg(eff, gainMin, flatMax) == MinI(MaxI(eff, gainMin) - flatMax, 0)
+\* one observation m = [model, eff, gainMin, flatMax, pinTot, nchDb, slotRatioDb, nfObs] against the curve tab:
+\* nfObs = the average NF the amplifier reports, eff = its (unclamped) gain
+NfOfModel(m, tab) == LET p == OrPin50(m.pinTot, m.nchDb, m.slotRatioDb)
+                     IN CASE m.model = "orPreamp" -> OrNf(p, OrPreampOsnr(p))
+                          [] m.model = "orIla"    -> OrNf(p, InterpUniform(tab, p))
+                          [] m.model = "poly"     -> InterpUniform(tab, PolyArg(m.eff, m.gainMin, m.flatMax))
+NfCurveDecided(m, tab) == CASE m.model = "orPreamp" -> TRUE
+                            [] m.model = "orIla"    -> InTable(tab, OrPin50(m.pinTot, m.nchDb, m.slotRatioDb))
+                            [] m.model = "poly"     -> InTable(tab, PolyArg(m.eff, m.gainMin, m.flatMax))
+                            [] OTHER -> FALSE
+NfFollowsModel(m, tab, tol) == NfCurveDecided(m, tab) =>
+                                  Within(m.nfObs, NfOfModel(m, tab) + AmpPad(m.gainMin, m.eff), tol)
+
 \* --- NF gain sweep of one amplifier type: pts = <<[g, nf]>> with strictly increasing g, s = [gainMin, flatMax,
 \*     nfMin, nfMax, minmax (1 = min/max-NF model), poly (1 = polynomial model), dual (1 = dual stage),
 \*     cascade (1 = the points carry the linear NF of the amplifier and of its two stages)] -----------------------------------------------------------
@@ -185,9 +215,10 @@ AccCdLinear(x, tol)       == AccAdds(x.cd0, x.cd1, x.dCd, tol)
 AccLatencyLinear(x, tol)  == AccAdds(x.lat0, x.lat1, x.dLat, tol)
 AccPmdQuadrature(x, tol)  == AccAdds(x.pmd0, x.pmd1, x.dPmd, tol)
 AccPdlQuadrature(x, tol)  == AccAdds(x.pdl0, x.pdl1, x.dPdl, tol)
-\* a ROADM's own PMD^2 / PDL^2 follow from the CONFIGURATION (cfg = 1: the event carries pmdCfg / pdlCfg per channel): the
-\* value the impairment profile of the crossed path defines for the channel's frequency range where it defines one, else
-\* the ROADM-level value - each of the two quantities on its own
-RoadmContribFromConfig(x, tol) == x.cfg = 1 => /\ \A i \in 1..Len(x.dPmd) : Within(x.dPmd[i], x.pmdCfg[i], tol)
+\* a ROADM's / amplifier's own PMD^2 / PDL^2 follow from the CONFIGURATION, CHANNEL BY CHANNEL (cfg = 1: the event carries
+\* pmdCfg / pdlCfg per channel).  ROADM: the value the impairment profile of the crossed path defines for the channel's
+\* frequency range where it defines one, else the ROADM-level value - each of the two quantities on its own.  Amplifier: the
+\* type's pmd / pdl; multiband amplifier: those of the band amplifier the channel goes through.
+ElementContribFromConfig(x, tol) == x.cfg = 1 => /\ \A i \in 1..Len(x.dPmd) : Within(x.dPmd[i], x.pmdCfg[i], tol)
                                                /\ \A i \in 1..Len(x.dPdl) : Within(x.dPdl[i], x.pdlCfg[i], tol)
 ==============================================================================
